@@ -438,4 +438,26 @@ def processRow (F : Fn α) (e : EngineD α) : Option (RowResult α) := do
     if ov.enabled then do pure (some (← defuzzRaw F inputs ov acts)) else pure none)
   pure { fuzzy := fz, rules := obs, raw := raw }
 
+/-! ## batch mode -/
+
+def setInputs (e : EngineD α) (row : List (X α)) : EngineD α :=
+  { e with inputs := (e.inputs.zip row).map (fun (iv, v) => iv.setValue v) }
+
+/-- the vectorised code evaluates every NumPy expression elementwise: row `i` of every intermediate array is the
+    scalar computation on row `i` of the inputs -/
+def batchRows (F : Fn α) (e : EngineD α) (rows : List (List (X α))) : List (Option (RowResult α)) :=
+  rows.map (fun row => processRow F (setInputs e row))
+
+/-- raw defuzzified column of output `i` over a batch whose rows all succeeded -/
+def rawColumn (results : List (RowResult α)) (i : Nat) : List (X α) :=
+  results.filterMap (fun rr => rr.raw.getD i none)
+
+/-- batch mode: ONE `defuzzify` per output on the whole column (the fill-forward loop runs over the batch) -/
+def batchValues (ov : OutVar α) (col : List (X α)) (s : OutState α) : List (X α) :=
+  (commit (cascadeCfg ov) col s).value
+
+/-- float mode: one `defuzzify` per row -/
+def rowsValues (ov : OutVar α) (col : List (X α)) (s : OutState α) : List (X α) :=
+  (commitRows (cascadeCfg ov) col s).1
+
 end Op.Engine
